@@ -1,4 +1,5 @@
-import VtProofs.PipeFilter
+import VtProofs.PipeBuild
+import VtProofs.StreamReaders
 /-!
 # C02 — the bounding-box tile stream equals the single-tile lookups inside the box
 
@@ -38,6 +39,65 @@ theorem filter_stream_ok {β : Type} {pyr : Pyramid} (hp : pyr.WF) {s : Src β} 
     looked-up blob -/
 theorem map_stream_ok {β : Type} (f : β → β) {s : Src β} (hs : Good s) : StreamOK (mapSrc f s) :=
   (map_good f hs).stream_ok
+
+/-- **from_overlayed preserves C02** (from_overlayed.rs:98-140), for ANY list of good sources,
+    any declared compression and any opaque recompression: the stream built from 32×32 cells
+    (`iter_bbox_grid`), the bounding box of the still empty slots per source and fill-only-empty
+    slot updates delivers exactly the overlay's lookups; none of `get_tile_index3(..).unwrap()`,
+    `get_coord3_by_index(..).unwrap()`, `tiles[index]` or the grid arithmetic can panic. -/
+theorem overlay_stream_ok {β : Type} (ops : Ops β) (out : Nat) {cover : Pyramid} (hc : cover.WF)
+    (srcs : List (Op β)) (hs : ∀ o ∈ srcs, Good o.src) : StreamOK (overlaySrc ops out cover srcs) :=
+  (overlay_good ops out hc srcs hs).stream_ok
+
+/-- **from_vectortiles_merged preserves C02** (structure; the payload merge is opaque) -/
+theorem merge_stream_ok {β : Type} (ops : Ops β) {cover : Pyramid} (hc : cover.WF)
+    (srcs : List (Op β)) (hs : ∀ o ∈ srcs, Good o.src) : StreamOK (mergedSrc ops cover srcs) :=
+  (merged_good ops hc srcs hs).stream_ok
+
+/-- **every nesting**: whatever pipeline is built from good leaves — any depth, any combination
+    of filter_zoom, filter_bbox, from_overlayed, from_vectortiles_merged, update_properties —
+    the resulting operation satisfies C02 (and its lookups never fail, its coverage is
+    well-formed).  Induction over the syntax tree `Pipe`. -/
+theorem pipe_stream_ok {β : Type} (ops : Ops β) (env : Nat → Outcome (Op β))
+    (henv : ∀ i o, env i = .ok o → Good o.src) (p : Pipe) (o : Op β) (h : build ops env p = .ok o) :
+    StreamOK o.src := (build_good ops env henv p o h).stream_ok
+
+theorem pipe_good {β : Type} (ops : Ops β) (env : Nat → Outcome (Op β))
+    (henv : ∀ i o, env i = .ok o → Good o.src) (p : Pipe) (o : Op β) (h : build ops env p = .ok o) :
+    Good o.src := build_good ops env henv p o h
+
+/-- **versatiles reader** (versatiles/reader.rs:232-374): the chunked stream — block scan over the
+    256-scaled box (missing blocks skipped), index scan filtered by the used box, sort by offset,
+    chunk merge (64 MiB / 32 KiB), one read per chunk, slicing — satisfies C02 for every
+    well-formed file and every box: beyond the stored blocks, sparse block index, every empty
+    encoding. -/
+theorem versatiles_stream_ok {f : VFile} (cover : Pyramid) (hf : f.WF) : StreamOK (versatilesSrc f cover) :=
+  VtModel.versatiles_stream_ok cover hf
+
+/-- the `panic!()` in `Chunk::push` is dead code: on offset-sorted entries every pushed entry
+    starts at or after the chunk start, every tile of a finished chunk lies inside the chunk's
+    byte range, and no entry is lost or reordered -/
+theorem chunk_push_dead (sorted : List (Coord × VEntry))
+    (hs : sorted.Pairwise (fun a b => a.2.off ≤ b.2.off))
+    (hb : ∀ e ∈ sorted, e.2.off + e.2.len + MAX_CHUNK_SIZE < U64) :
+    ∃ cs, mergeChunks sorted = .ok cs ∧ cs.flatMap Chunk.tiles = sorted ∧
+      ∀ c ∈ cs, ∀ t ∈ c.tiles, c.off ≤ t.2.off ∧ t.2.off + t.2.len ≤ c.off + c.len :=
+  chunk_push_invariant sorted hs hb
+
+/-- slicing the chunk blob at `e.off − chunk.off` equals reading `e.range` directly -/
+theorem slice_is_read (f : VFile) (coff clen eoff elen : Nat) (h1 : coff ≤ eoff) (h2 : eoff + elen ≤ coff + clen) :
+    ((f.readRange coff clen).drop (eoff - coff)).take elen = f.readRange eoff elen :=
+  slice_eq_read f coff clen eoff elen h1 h2
+
+/-- **mbtiles reader** (mbtiles/reader.rs:366-411): one range query on TMS rows, flipped back -/
+theorem mbtiles_stream_ok {t : List MRow} (cover : Pyramid) (ht : MTable.WF t) : StreamOK (mbtilesSrc t cover) :=
+  VtModel.mbtiles_stream_ok cover ht
+
+/-- container leaves are good sources, so they can sit under any pipeline -/
+theorem versatiles_good {f : VFile} {cover : Pyramid} (hc : cover.WF) (hf : f.WF) : Good (versatilesSrc f cover) :=
+  ⟨hc, versatiles_lookup_ok cover hf, VtModel.versatiles_stream_ok cover hf⟩
+theorem mbtiles_good {t : List MRow} {cover : Pyramid} (hc : cover.WF) (ht : MTable.WF t) : Good (mbtilesSrc t cover) :=
+  ⟨hc, mbtiles_lookup_ok cover ht, VtModel.mbtiles_stream_ok cover ht⟩
 
 /-! ### non-vacuity -/
 
